@@ -16,6 +16,7 @@
 #include <stdint.h>
 
 #include <ROOT-Sim.h>
+#include <core/verif.h>
 
 #ifdef max
 #undef max
